@@ -2,6 +2,7 @@
 #define _PROPHY_DETAIL_ENCODER_HPP_
 
 #include <stdint.h>
+#include <string.h>
 #include <prophy/endianness.hpp>
 #include <prophy/optional.hpp>
 #include <prophy/detail/codec_traits.hpp>
@@ -116,25 +117,33 @@ inline void encode_int<big, int64_t>(uint8_t* out, const int64_t& in)
 template <>
 inline void encode_int<little, float>(uint8_t* out, const float& in)
 {
-    encode_int<little>(out, reinterpret_cast<const uint32_t&>(in));
+    uint32_t bits;
+    memcpy(&bits, &in, sizeof(bits));  /// reading the float through an integer reference breaks the aliasing rules
+    encode_int<little>(out, bits);
 }
 
 template <>
 inline void encode_int<big, float>(uint8_t* out, const float& in)
 {
-    encode_int<big>(out, reinterpret_cast<const uint32_t&>(in));
+    uint32_t bits;
+    memcpy(&bits, &in, sizeof(bits));  /// reading the float through an integer reference breaks the aliasing rules
+    encode_int<big>(out, bits);
 }
 
 template <>
 inline void encode_int<little, double>(uint8_t* out, const double& in)
 {
-    encode_int<little>(out, reinterpret_cast<const uint64_t&>(in));
+    uint64_t bits;
+    memcpy(&bits, &in, sizeof(bits));  /// reading the float through an integer reference breaks the aliasing rules
+    encode_int<little>(out, bits);
 }
 
 template <>
 inline void encode_int<big, double>(uint8_t* out, const double& in)
 {
-    encode_int<big>(out, reinterpret_cast<const uint64_t&>(in));
+    uint64_t bits;
+    memcpy(&bits, &in, sizeof(bits));  /// reading the float through an integer reference breaks the aliasing rules
+    encode_int<big>(out, bits);
 }
 
 template <endianness E, typename T,
